@@ -63,6 +63,7 @@ type Harness struct {
 	objs    map[int]interface{}
 	ptrNode map[interface{}]*model.Node
 	rtypes  map[string]reflect.Type
+	rtypes2 map[string]reflect.Type // second, unregistered Go type of some object types (fields in another order)
 	renamed map[string]map[string]string // GraphQL type -> field -> Go field name bound with RegisterField
 	regID   int64                        // key of this harness in the hydration registry (0: not registered)
 	rootObj interface{}
@@ -528,6 +529,12 @@ func (h *Harness) buildTypes() {
 		return
 	}
 	anyT := reflect.TypeOf((*interface{})(nil)).Elem()
+	abstract := false
+	for _, t := range h.S.Types {
+		if t.Kind == model.Interface || t.Kind == model.Union {
+			abstract = true // there the Go type decides the GraphQL type: one Go type per object type
+		}
+	}
 	for i, t := range h.S.Types {
 		if t.Kind != model.Object {
 			continue
@@ -562,6 +569,18 @@ func (h *Harness) buildTypes() {
 			fields = append(fields, reflect.StructField{Name: "EmbeddedZz", Type: reflect.StructOf(emb), Anonymous: true})
 		}
 		h.rtypes[t.Name] = reflect.StructOf(fields)
+		if !abstract && i%4 == 3 && len(fields) > 2 {
+			// a second Go struct type for the same GraphQL object type: same field names, opposite order, a marker of its
+			// own. It is never registered; under object-typed positions reflection finds its fields by name all the same.
+			rev := []reflect.StructField{{Name: fmt.Sprintf("Zy_%d_%s", i, sanitize(t.Name)), Type: reflect.TypeOf(struct{}{})}}
+			for j := len(fields) - 1; j >= 1; j-- {
+				rev = append(rev, fields[j])
+			}
+			if h.rtypes2 == nil {
+				h.rtypes2 = map[string]reflect.Type{}
+			}
+			h.rtypes2[t.Name] = reflect.StructOf(rev)
+		}
 	}
 }
 
@@ -599,6 +618,9 @@ func (h *Harness) reflectObj(n *model.Node) interface{} {
 	rt := h.rtypes[n.Type]
 	if rt == nil {
 		return nil
+	}
+	if r2 := h.rtypes2[n.Type]; r2 != nil && n.ID%2 == 1 {
+		rt = r2
 	}
 	pv := reflect.New(rt)
 	o := pv.Interface()
